@@ -162,6 +162,35 @@ def parse_diff_dot(out):
     return sorted(rows)
 
 
+NODE = re.compile(r'^\t+"((?:[^"\\]|\\.)*)" \[label="((?:[^"\\]|\\.)*)" color="([^"]*)" fontcolor="([^"]*)"\]$')
+
+
+def parse_dot_nodes(out):
+    """{peer string: [(label, color), ...]} of the node declarations of a dot output (legend nodes aside)"""
+    nodes = {}
+    for l in out.split('\n'):
+        m = NODE.match(l)
+        if m and m.group(3) == m.group(4):
+            nodes.setdefault(m.group(1), []).append((m.group(2), m.group(3)))
+    return nodes
+
+
+def api_diff_nodes(od):
+    """the node declarations the diff dot output must hold: one per peer of any entry (unchanged included); label name[Kind] for a
+    workload, the peer string otherwise; green if the workload is new, red if lost, blue otherwise"""
+    want = {}
+    for t in ('unchanged', 'changed', 'added', 'removed'):
+        for e in od['diff'].get(t) or []:
+            for side, flag in (('src', e['src_new_or_lost']), ('dst', e['dst_new_or_lost'])):
+                s = e[side]
+                m = re.match(r'^[^/{}]+/(.+\[[A-Za-z]+\])$', s)
+                label = m.group(1) if m else s
+                color = ('#008000' if t == 'added' else 'red') if (flag and t in ('added', 'removed')) else 'blue'
+                if s not in want or want[s][1] == 'blue':
+                    want[s] = (label, color)
+    return want
+
+
 # ---------------------------------------------------------------- exposure sections (list --exposure; txt md csv json)
 NSKEY = 'kubernetes.io/metadata.name'
 
@@ -209,6 +238,36 @@ def api_exposure_rows(obs):
                 if d == 'ingress' and c['dst'] == w and c['src'] in ips:
                     rows.append((d, w, c['src'], conn_str(c['conn'])))
     return sorted(rows), sorted(unprot)
+
+
+def numeric_part(conn_string):
+    """{protocol: [[lo, hi], ...]} of the numeric ranges in a printed connection; None for All / No Connections"""
+    if conn_string in ('All Connections', 'No Connections'):
+        return None
+    res, cur = {}, None
+    for tok in conn_string.split(','):
+        m = re.match(r'^(TCP|UDP|SCTP) (.*)$', tok)
+        if m:
+            cur = m.group(1)
+            res.setdefault(cur, [])
+            tok = m.group(2)
+        r = re.match(r'^(\d+)(?:-(\d+))?$', tok)
+        if r and cur is not None:
+            res[cur].append([int(r.group(1)), int(r.group(2) or r.group(1))])
+    return res
+
+
+def exposure_conn_consistent(e):
+    """the printed potential connectivity holds exactly the numeric ranges ProtocolsAndPortsMap() reports (named ports, which the
+    API shows only in the string, aside); All Connections iff IsAllConnections()"""
+    c, s = e['conn'], e['conn_str']
+    if c.get('all'):
+        return s == 'All Connections'
+    got = numeric_part(s)
+    if got is None:
+        return s == 'No Connections' and not any(c.get('pp', {}).values())
+    want = {k: [list(r) for r in v] for k, v in (c.get('pp') or {}).items() if v}
+    return {k: v for k, v in got.items() if v} == want
 
 
 def parse_exposure_txt(out):
